@@ -87,14 +87,23 @@ class LWorld:
 
     def lstat(self, p: Any) -> _Stat:
         self.sched.op("fs.lstat")
+        me0 = next((x for x in self.workers if x.pid == self.current_pid()), None)
+        if me0 is not None and me0.sock is not None and me0.sock.closed and self.perturb is not None:
+            # ... and so is the gap between closing the listener and this first look at the path
+            self.perturb("exiting-before-lstat")
         n = self.fs.get(self.norm(p))
         if n is None:
             raise FileNotFoundError(2, "No such file or directory (sim)", str(p))
         st = _Stat(n)
+        if not hasattr(self, "last_lstat"):
+            self.last_lstat = {}
         # a worker that has closed its listener is in serve_unix's cleanup: the gap between this lstat() and the
         # unlink() that follows is a scheduling point of its own (the process may be descheduled there)
         me = next((x for x in self.workers if x.pid == self.current_pid()), None)
-        if me is not None and me.sock is not None and me.sock.closed and self.perturb is not None:
+        exiting = me is not None and me.sock is not None and me.sock.closed
+        if exiting:
+            self.last_lstat[(self.current_pid(), self.norm(p))] = n.ino  # what the cleanup of this worker saw at the path
+        if exiting and self.perturb is not None:
             self.perturb("exiting-lstat")
         return st
 
@@ -115,8 +124,11 @@ class LWorld:
         if me is not None and n.kind == "sock" and n.sock is not None and n.sock.owner_pid != by \
                 and n.sock.listener is not None and not n.sock.listener.closed:
             own = me.sock.ino if me.sock is not None else None
+            # the recorded race needs the exiting worker to have SEEN its own inode at the path (identity check passed) before
+            # the path was replaced; an unlink without such a look, or after seeing the foreign inode, is something else
+            saw = getattr(self, "last_lstat", {}).get((by, k))
             self.usurped.append({"seq": self.log.seq, "path": k, "ino": n.ino, "owner_pid": n.sock.owner_pid, "by_pid": by,
-                                 "by_own_ino": own})
+                                 "by_own_ino": own, "identity_check_passed_earlier": saw is not None and saw == own})
             self.ch.probe("exiting_worker_unlinked_successor_socket")
 
     def mkdir(self, p: Any, parents: bool, exist_ok: bool) -> None:
